@@ -373,10 +373,7 @@ func binDrivers(o corrOpts, sum *res.Summary, r *rng.R, bin string) {
 
 // ---------------------------------------------------------------- C08
 func allCodesDir() (string, func()) {
-	verif := os.Getenv("GGV_VERIF")
-	if verif == "" {
-		verif = "/verif"
-	}
+	verif := verifDir()
 	d := scratchDir("allcodes")
 	exec.Command("cp", "-r", filepath.Join(verif, "corpus", "allcodes")+"/.", d).Run()
 	return d, func() { os.RemoveAll(d) }
@@ -729,7 +726,7 @@ func binDeterminism(o corrOpts, sum *res.Summary, r *rng.R, bin string) {
 	}
 	dir := scratchDir("det")
 	defer os.RemoveAll(dir)
-	exec.Command("cp", "-r", "/verif/corpus/allcodes/.", dir).Run()
+	exec.Command("cp", "-r", filepath.Join(verifDir(), "corpus", "allcodes")+"/.", dir).Run()
 	genModule(dir, r, n, func(i int) gen.Options { return gen.Options{Ignores: i%2 == 0, Spelling: []int{0, 1}[i%2]} })
 	norm := func(rn binRun) string {
 		var l []string
@@ -849,7 +846,7 @@ func binCrash(o corrOpts, sum *res.Summary, r *rng.R, bin string) {
 	}
 	dir := scratchDir("crash")
 	defer os.RemoveAll(dir)
-	exec.Command("cp", "-r", "/verif/corpus/witnesses/.", filepath.Join(dir, "wit")).Run()
+	exec.Command("cp", "-r", filepath.Join(verifDir(), "corpus", "witnesses")+"/.", filepath.Join(dir, "wit")).Run()
 	os.Remove(filepath.Join(dir, "wit", "go.mod"))
 	// the witnesses use module path exp/...: rewrite to exp/wit/...
 	filepath.Walk(filepath.Join(dir, "wit"), func(path string, info os.FileInfo, err error) error {
@@ -948,4 +945,12 @@ func binCorpus(o corrOpts, sum *res.Summary, r *rng.R, bin string) {
 	})
 	sum.Extra = map[string]any{"corpus_files_scanned_for_annotation_lines": cnt, "files_with_a_recognised_annotation_line": hits}
 	sum.Rule = "the real binary over standard-library packages (30 in quick, all of std in thorough) under the default configuration and under scan-tests + empty exclude-paths: the output must be empty; the precondition (no line begins with // @keyword) is measured on the sources; non-trivial = packages analysed"
+}
+
+// verifDir is the root of the verification tree the corpora are read from (GGV_VERIF, set by the driver).
+func verifDir() string {
+	if v := os.Getenv("GGV_VERIF"); v != "" {
+		return v
+	}
+	return "/verif"
 }
